@@ -44,7 +44,9 @@ RULE = ("case = T in 2..16 workloads (thread i runs w[i mod len(w)], so some cas
         "over a small op language: container work on Array/List/Table/Tree of Int/String (push/set/rem/get incl. failing "
         "ones/sort/copy/iterate), chains of instrumented objects kept in stack slots + allocation churn (threshold "
         "collections) + forced collections + explicit del, exception trees (nested try/throw/catch with filters of 0..2 "
-        "kinds, library-thrown errors, allocation and yields inside try bodies), thread-local set/get/rem on "
+        "kinds, library-thrown errors, allocation and yields inside try bodies), objects whose destructor allocates "
+        "1..3 further collected objects (two more generations, optional spin between births; left as garbage or kept "
+        "until the thread ends), thread-local set/get/rem on "
         "current(Thread) with key names shared by all threads, lock sections (lock/unlock, trylock, with-block on 1..3 "
         "mutexes in ascending order, non-atomic counter increment with a generated spin between read and write, "
         "in-section flag), join programs (in main and inside workloads: worker writes bytes, Array pushes, a String, "
@@ -60,13 +62,14 @@ RULE = ("case = T in 2..16 workloads (thread i runs w[i mod len(w)], so some cas
         "every such object alive and identical before and after its workload (ids are part of its digest). "
         "Each workload is first run alone; per-thread result digest and exception-trace digest must be equal in the "
         "concurrent run; ledger: no finalisation on a thread other than the allocator, none twice, nothing reachable "
-        "from a slot finalised; thread-local values read back are the thread's own; exception depth 0 after every op; "
+        "from a slot finalised; when join returns every object a spawned thread allocated (also those born in "
+        "destructors) has been finalised exactly once; thread-local values read back are the thread's own; exception depth 0 after every op; "
         "counter == number of increments and flag never seen set; joiner sees every write and the done mark. "
         "non-trivial = measured (global op counter stamped at every op): >= 2 workloads whose [first op, last op] "
         "intervals intersect AND >= 1 collection (forced, or a finaliser run by a threshold collection) or throw whose "
-        "stamp lies strictly inside another workload's interval. distinct = distinct case JSON. extra phase: 42 fixed "
-        "stress programs (gift / clone / lock / exception / churn / thread-local / join heavy; T in 2,4,8,16; both "
-        "builds), each run 3 times.")
+        "stamp lies strictly inside another workload's interval. distinct = distinct case JSON. extra phase: 48 fixed "
+        "stress programs (dtoralloc / gift / clone / lock / exception / churn / thread-local / join heavy; T in "
+        "2,4,8,16; both builds), each run 3 times.")
 
 ASSUMPTIONS = [
     "every workload is bounded (no waits except the start signal given by main after all call()s returned, and "
@@ -81,7 +84,10 @@ ASSUMPTIONS = [
     "otherwise walk the running threads' thread-local tables through Thread_Mark (unsynchronised read of another "
     "thread's Table; see report) - that input class is excluded by construction",
     "data races without an observable wrong result (Type cache fills) are not failures; TSan is not used",
-    "leaked (never finalised) thread objects are recorded as an event, not as a failure (not part of the statement)",
+    "completeness of finalisation at join (every object of a spawned thread, incl. those born in destructors, "
+    "finalised once by its own thread) is a failure condition: the teardown in Thread_Init_Run sweeps until nothing "
+    "is left and the alone-run finalises all of them; not asserted for the main thread's own workload (its collector "
+    "lives on)",
     "cloned threads: Thread_Assign copies the source's thread-local table; nothing is asserted about the inherited "
     "user entries (the clone removes them from its own copy before its workload, never dereferencing them); the main "
     "thread only copies a worker's Thread object while that worker waits (an unsynchronised read of a table that is "
@@ -167,12 +173,13 @@ def tree_tokens(data, max_nodes=28):
 
 # ---- op decoding -------------------------------------------------------------------------------
 
-OPN = ["cn", "cp", "cr", "cg", "cs", "cd", "cc", "cx", "ob", "ch", "ow", "od", "gc", "ex", "ts", "tg", "tr", "lk", "jw", "sb"]
+OPN = ["cn", "cp", "cr", "cg", "cs", "cd", "cc", "cx", "ob", "ch", "ow", "od", "gc", "ex", "ts", "tg", "tr", "lk", "jw", "sb", "da"]
 
 PROFILES = {
-    "mixed":  "cn cn cp cp cp cr cg cs cd cc cx ob ch ch ow ow od gc ex ex ts tg tg tr lk lk sb jw".split(),
+    "mixed":  "cn cn cp cp cp cr cg cs cd cc cx ob ch ch ow ow od gc ex ex ts tg tg tr lk lk sb jw da".split(),
     "cont":   "cn cn cp cp cp cp cr cg cg cs cd cd cc cx sb ch gc".split(),
-    "churn":  "ob ob ch ch ch ow ow ow od gc gc cn cp cd".split(),
+    "churn":  "ob ob ch ch ch ow ow ow od gc gc cn cp cd da".split(),
+    "dtor":   "da da da da gc gc ch ow od ob".split(),
     "exc":    "ex ex ex ex ex cg cr ch ow ob gc".split(),
     "tls":    "ts ts tg tg tg tr ch ex gc ow ob".split(),
     "lock":   "lk lk lk lk lk ch cp cn ex".split(),
@@ -225,12 +232,16 @@ def decode_op(name, a, b, xb, nmutex, maxchurn):
         return "jw %d %d %d %d %d %d %d %d" % (1 + b % 64, a % 50, dk, dc, b % 5, b % 7, b % 30, a % 9)
     if name == "sb":
         return "sb %d %d" % (a % 20, b)
+    if name == "da":
+        # da mode n k spin slot: n objects whose destructor allocates k objects of the next generation (two more
+        # generations); mode 1 keeps them (chain in an object slot, usually until the thread ends)
+        return "da %d %d %d %d %d" % (a % 3 == 0, 5 + b % 36, 1 + (a // 3) % 3, spin_arg(b // 7) if a % 2 else 0, (a // 9) % NOBJ)
     raise HarnessBug("op " + name)
 
 
 @st.composite
 def _workload(draw, nmutex, maxops, maxchurn):
-    prof = draw(st.sampled_from(["mixed", "mixed", "cont", "churn", "exc", "tls", "lock"]))
+    prof = draw(st.sampled_from(["mixed", "mixed", "cont", "churn", "exc", "tls", "lock", "dtor"]))
     names = PROFILES[prof]
     raw = draw(st.lists(st.tuples(st.sampled_from(names), st.integers(0, 4000), st.integers(0, 4000)),
                         min_size=6, max_size=maxops))
@@ -409,8 +420,9 @@ def _judge(case, obs):
                 fail = "workload %s: result digest %s in the concurrent run, %s when run alone" % (i, cd, sd)
             if int(tryfail):
                 ev.append("trylock-found-mutex-busy")
-            if not (case["main"] and i == "0") and (int(cf) != int(allocs) or int(sf) != int(allocs)):
-                ev.append("objects-not-finalised-at-thread-exit")
+            if not (case["main"] and i == "0") and (int(cf) != int(allocs) or int(sf) != int(allocs)) and not fail:
+                fail = ("workload %s: %s objects allocated, %s finalised when joined in the concurrent run, %s when run "
+                        "alone" % (i, allocs, cf, sf))
         elif o.startswith("lock "):
             f = dict(x.split("=") for x in o.split()[2:])
             if f["counter"] != f["expect"] and not fail:
@@ -515,6 +527,17 @@ def _stress(kind, T, cfg):
             ops += ["ts %d %d" % (r % NKEY, r), "tg %d" % (r % NKEY), "ts %d %d" % ((r + 1) % NKEY, 100 + r), "tg %d" % ((r + 1) % NKEY),
                     "tr %d" % (r % NKEY), "tg %d" % (r % NKEY), "ch 20"]
         w = [{"ops": ops, "ys": [[2, 0, 1], [10, 1, 800], [33, 0, 2]]}]
+    elif kind == "dtoralloc":
+        # every thread: a kept chain of objects with allocating destructors (finalised by the teardown sweeps at
+        # thread exit) + rounds of such garbage finalised by forced and threshold collections; all threads run the
+        # same program from a common start so that their sweeps and teardowns overlap
+        ops = ["da 1 20 3 %d 0" % (2 * 60 + 1)]
+        for r in range(8):
+            ops += ["da 0 %d 3 %d 0" % (24 + 4 * (r % 4), 2 * (40 + 30 * r) + 1 if r % 2 else 0), "gc", "ch 25", "ow 0"]
+        ops += ["da 1 30 2 0 1", "da 0 40 3 0 0"]
+        w = [{"ops": ops, "ys": [[3, 0, 1], [9, 1, 400], [17, 0, 2], [25, 1, 900]]},
+             {"ops": ops[:13] + ["ch 60"] + ops[13:], "ys": [[5, 1, 300], [21, 0, 1]]}]
+        return {"cfg": cfg, "T": T, "main": 0, "gcthr": 0, "barrier": 1, "nmutex": 1, "w": w, "joins": [], "rep": 3}
     elif kind == "gift":
         # every workload gets 3 gifts; parents: main (even workloads), the preceding worker (odd workloads, mode 5);
         # the last workload runs on the finished Thread object of workload 0
@@ -561,7 +584,7 @@ def extra_phase(ctx, tier, stats, sample_fn):
     n = 0
     if os.environ.get("VERIF_C13_NOSTRESS"):          # sensitivity experiments: generated cases only
         return {"fails": [], "extra": {"stress_programs": 0}}
-    for kind in ("gift", "clone", "lock", "exc", "churn", "tls", "join"):
+    for kind in ("dtoralloc", "gift", "clone", "lock", "exc", "churn", "tls", "join"):
         for (T, cfg) in STRESS_SHAPES:
             case = _stress(kind, T, cfg)
             res = run_case(ctx, case)
